@@ -130,7 +130,7 @@ def o2(W, ob):
             for st_ in b.stmts:
                 if st_.k == 'assign' and st_.rv.k == 'bin' and st_.rv.op in ('Sub', 'SubWithOverflow', 'SubUnchecked'):
                     ka = key(cxf.expr_operand(st_.rv.a))
-                    if 'SystemTime::now()' in ka:
+                    if 'SystemTime::now()' in ka or 'millis_since_epoch(' in ka:
                         nsub += 1
                         ob.fail('%s|wall-clock-difference-not-saturating' % short(f.path),
                                 '%s subtracts from a wall-clock reading with a plain `-` (`%s - %s`): a backward clock step (NTP) overflows -- panic with overflow '
@@ -138,7 +138,7 @@ def o2(W, ob):
                                     short(f.path), ka[:60], key(cxf.expr_operand(st_.rv.b))[:60]), where(f, st_.line))
             t = b.term
             if t.k == 'call' and t.callee.indirect is None and last_seg(t.callee.best) == 'saturating_sub' and t.args and \
-                    'SystemTime::now()' in key(cxf.expr_operand(t.args[0])):
+                    ('SystemTime::now()' in key(cxf.expr_operand(t.args[0])) or 'millis_since_epoch(' in key(cxf.expr_operand(t.args[0]))):
                 nsub += 1
                 ob.ok('wall-clock difference in %s saturates' % short(f.path), where(f, t.line))
     ob.require_count(nsub, 2, 'wall-clock differences (network_stats, on_quality_reply)')
